@@ -39,6 +39,7 @@ type Prog struct {
 	allFuncs       map[*ssa.Function]bool
 	Inlined        []Inlined
 	RenamedFuncs   []Renamed
+	RenamedFields  []RenamedField
 	renamed        map[string]*ssa.Function
 	inlinedCallees map[*ssa.Function]bool
 }
@@ -105,6 +106,18 @@ func Load(opt Options) (*Prog, error) {
 	prog, ssapkgs := ssautil.AllPackages(pkgs, ssa.InstantiateGenerics)
 	prog.Build()
 	p.SSA = prog
+	if os.Getenv("DCVERIF_DUMP_FUNCS") == "" && os.Getenv("DCVERIF_NO_INLINE") == "" {
+		// (after SSA construction: the builder resolves keyed composite literals by field NAME; everything the rules read
+		// — FieldOf(...).Name(), access paths, the JSON walk — goes through the *types.Var and sees the reference name)
+		var tps []*types.Package
+		for _, pk := range pkgs {
+			if pk.Types != nil && (pk.PkgPath == Module || strings.HasPrefix(pk.PkgPath, Module+"/")) && !strings.HasSuffix(pk.PkgPath, "_test") {
+				tps = append(tps, pk.Types)
+			}
+		}
+		p.RenamedFields = detectFieldRenames(tps)
+	}
+
 	if dump := os.Getenv("DCVERIF_DUMP_FUNCS"); dump != "" {
 		// (maintenance) write the list of module functions of this tree: the baseline of the inliner
 		var names []string
@@ -119,6 +132,14 @@ func Load(opt Options) (*Prog, error) {
 		}
 		sort.Strings(names)
 		_ = os.WriteFile(dump, []byte("# module functions of the reference tree; functions not listed here are inlined into their callers (see inline.go)\n"+strings.Join(names, "\n")+"\n"), 0o644)
+		var tps []*types.Package
+		for _, pk := range pkgs {
+			if pk.Types != nil && (pk.PkgPath == Module || strings.HasPrefix(pk.PkgPath, Module+"/")) {
+				tps = append(tps, pk.Types)
+			}
+		}
+		_ = os.WriteFile(dump+".fields", []byte(dumpStructFields(tps)), 0o644)
+		_ = os.WriteFile(dump+".fp", []byte(dumpFingerprints(ssautil.AllFunctions(prog))), 0o644)
 	} else if os.Getenv("DCVERIF_NO_INLINE") == "" {
 		all := ssautil.AllFunctions(prog)
 		p.RenamedFuncs = p.detectRenames(all)
